@@ -23,7 +23,7 @@ from props import ops1_common as oc
 
 CINVS = ["Grammar", "OnePerConnection", "OnlyWhileConnected", "RefCountEdges", "AutoRule", "MapperRule", "RefOK", "Independent"]
 RINVS = ["PerApp", "Independent"]
-JVM = {"JAVA_TOOL_OPTIONS": "-XX:ParallelGCThreads=2"}
+JVM = None   # harness/tlc.py keeps the JVM thread count low itself
 ALLSK = {"plain", "behavior", "replay"}
 OPS1 = [o for g in oc.ELEMENTWISE + oc.AGGREGATES for o in g]
 
@@ -263,7 +263,7 @@ def run(tier: str) -> int:
                "Independent in both modules); (3) differential part for further factories: shared operator object vs fresh "
                "operator per source; non-trivial = at least two applications receive notifications")
     jobs = plan(tier)
-    procs = 1 if tier == "quick" else 8   # on a loaded box a fork pool is slower than one process for < 50k runs
+    procs = cc.pool_procs(tier)
 
     def one(j):
         mod, label, consts, invs, props, sim, depth = j
